@@ -26,6 +26,7 @@ RULE = ('One data file holds 1..3 planted sources, each from its own model (fit(
         'm) must have reference chi^2 > 1e-3 (+ float32 slack), else the case is counted as degenerate and skipped. '
         'Non-trivial = non-degenerate case with >= 2 models; distinct = distinct canonical JSON.')
 RULE += (' ' + 'Also varied: per-model wavelength grids in per-file packages, documented file layouts (.gz, sub-directories, parameters.fits.gz), stored units.')
+RULE += (' ' + 'Cube packages: one band may be given to fit() as a wavelength, cube apertures in AU / pc / cm, a Fitter made before fit() (reversed filters) is used after it; one of the other models may have no flux at all.')
 ASSUMPTIONS = [
     'chi2[0] <= 1e-6 (+ float32 slack for cube packages, whose model fluxes fit() memory-maps as float32)',
     'A_V and scale within 1e-6*(1+|p|) plus the first-order float32 perturbation bound',
